@@ -1,1 +1,109 @@
-(* placeholder *)
+(* Props/Properties_C17.v — property C17: distinct managers share no mutable state that
+   influences results.  Model: Mgr/Globals.v (world = globals x managers, ring model of
+   Mgr/Ring.v per manager); the set of globals is tied to the rebuilt library by
+   Gen/GenGlobals.v (translators/t6_globals.py, every run).  Proofs: Proofs/GlobalsProofs.v.
+   Nothing here but the theorems, each closed by [exact]. *)
+From Coq Require Import String.
+From Coq Require Import ZArith List Bool.
+From IMB Require Import Gen.GenConsts Gen.GenGlobals Gen.GenStrerror Mgr.Ring Mgr.Errno Mgr.Globals
+                        Proofs.GlobalsProofs.
+Import ListNotations.
+Local Open Scope Z_scope.
+
+Notation SZ := SIZEOF_IMB_JOB.
+Notation NJ := IMB_MAX_JOBS.
+Notation MAXB := IMB_MAX_BURST_SIZE.
+
+(* Finite, complete over every symbol of every run-time-writable section of the rebuilt .so:
+   each one is a modelled global of the documented size (the CPUID cache and the session counter
+   moreover touched only by cpu_feature_detect / imb_set_session), or a toolchain symbol, or the
+   never-written exported pointer imb_version_str; unnamed gaps are alignment padding; the
+   modelled globals exist.  A new static scratch buffer, lazily initialised table or
+   "last used manager" cache makes this fail. *)
+Theorem writable_globals_are_modelled :
+  forallb sym_ok writable_syms = true
+  /\ forallb gap_ok writable_gaps = true
+  /\ (has_sym "imb_errno" && has_sym "cpuid_1_0" && has_sym "cpuid_7_0" && has_sym "cpuid_7_1"
+      && (has_sym "counter.0" || has_sym "imb_set_session.counter"))%string = true
+  /\ forallb (fun s => mem_str (fst s) [".data"; ".bss"; ".tdata"; ".tbss"]%string) writable_sections = true.
+Proof. exact writable_globals_are_modelled_thm. Qed.
+Print Assumptions writable_globals_are_modelled.
+
+(* For ALL interleavings l of calls (job/burst API with any oracle, other API functions,
+   imb_set_session, init, imb_get_errno) on any number of managers, for every manager i, from any
+   two worlds agreeing on i (so whatever the globals hold and whatever the other managers are):
+   i's final state and everything i observed — return values, outputs, statuses, its error FIELD
+   after every call; only the session id and the value of the FUNCTION imb_get_errno erased —
+   equal those of i's own calls run alone. *)
+Theorem mgr_noninterference : forall cell_of cpu feat_of sess ring0 l w w' i,
+  mgrs w i = mgrs w' i ->
+  mgrs (fst (wrun SZ NJ MAXB cell_of cpu feat_of sess ring0 w l)) i
+  = mgrs (fst (wrun SZ NJ MAXB cell_of cpu feat_of sess ring0 w' (only i l))) i
+  /\ outs_of i (snd (wrun SZ NJ MAXB cell_of cpu feat_of sess ring0 w l))
+     = outs_of i (snd (wrun SZ NJ MAXB cell_of cpu feat_of sess ring0 w' (only i l))).
+Proof. exact (mgr_noninterference_thm SZ NJ MAXB). Qed.
+Print Assumptions mgr_noninterference.
+
+Theorem interleavings_indistinguishable : forall cell_of cpu feat_of sess ring0 l1 l2 w i,
+  only i l1 = only i l2 ->
+  mgrs (fst (wrun SZ NJ MAXB cell_of cpu feat_of sess ring0 w l1)) i
+  = mgrs (fst (wrun SZ NJ MAXB cell_of cpu feat_of sess ring0 w l2)) i
+  /\ outs_of i (snd (wrun SZ NJ MAXB cell_of cpu feat_of sess ring0 w l1))
+     = outs_of i (snd (wrun SZ NJ MAXB cell_of cpu feat_of sess ring0 w l2)).
+Proof. exact (interleaving_irrelevant SZ NJ MAXB). Qed.
+Print Assumptions interleavings_indistinguishable.
+
+(* the FUNCTION imb_get_errno(i) after an interleaving equals its solo value if and only if i's
+   own field is non-zero or the mirror cell i reads holds the solo value *)
+Theorem get_errno_characterisation : forall cell_of cpu feat_of sess ring0 l w i,
+  let w1 := fst (wrun SZ NJ MAXB cell_of cpu feat_of sess ring0 w l) in
+  let w2 := fst (wrun SZ NJ MAXB cell_of cpu feat_of sess ring0 w (only i l)) in
+  get_errno cell_of w1 i = get_errno cell_of w2 i <->
+  errno (m_ring (mgrs w1 i)) <> 0 \/ g_errno (glob w1) (cell_of i) = g_errno (glob w2) (cell_of i).
+Proof. exact (get_errno_characterisation_thm SZ NJ MAXB). Qed.
+Print Assumptions get_errno_characterisation.
+
+(* read right after the manager's own (mirror-writing) call: no influence *)
+Theorem get_errno_after_own_call : forall cell_of cpu feat_of sess ring0 l w i o,
+  writes_mirror o = true ->
+  get_errno cell_of (fst (wrun SZ NJ MAXB cell_of cpu feat_of sess ring0 w (l ++ [(i, o)]))) i
+  = get_errno cell_of (fst (wrun SZ NJ MAXB cell_of cpu feat_of sess ring0 w (only i (l ++ [(i, o)])))) i.
+Proof. exact (get_errno_after_own_call_thm SZ NJ MAXB). Qed.
+Print Assumptions get_errno_after_own_call.
+
+(* a mirror cell no other manager of the history hits (thread-local mirror, one manager per
+   thread): no influence at any time *)
+Theorem get_errno_private_cell : forall cell_of cpu feat_of sess ring0 l w i,
+  (forall j o, In (j, o) l -> j <> i -> cell_of j <> cell_of i) ->
+  get_errno cell_of (fst (wrun SZ NJ MAXB cell_of cpu feat_of sess ring0 w l)) i
+  = get_errno cell_of (fst (wrun SZ NJ MAXB cell_of cpu feat_of sess ring0 w (only i l))) i.
+Proof. exact (get_errno_private_cell_thm SZ NJ MAXB). Qed.
+Print Assumptions get_errno_private_cell.
+
+(* feature detection neither depends on nor changes (beyond the CPU's constant answer) the cache *)
+Theorem cpuid_cache_idempotent : forall cell_of cpu feat_of sess ring0 w1 w2 i j,
+  g_cpuid (glob (fst (wstep SZ NJ MAXB cell_of cpu feat_of sess ring0 w1 i WInit))) = cpu
+  /\ g_cpuid (glob (fst (wstep SZ NJ MAXB cell_of cpu feat_of sess ring0
+                           (fst (wstep SZ NJ MAXB cell_of cpu feat_of sess ring0 w1 i WInit)) j WInit)))
+     = g_cpuid (glob (fst (wstep SZ NJ MAXB cell_of cpu feat_of sess ring0 w1 i WInit)))
+  /\ m_feat (mgrs (fst (wstep SZ NJ MAXB cell_of cpu feat_of sess ring0 w1 i WInit)) i)
+     = m_feat (mgrs (fst (wstep SZ NJ MAXB cell_of cpu feat_of sess ring0 w2 i WInit)) i)
+  /\ snd (wstep SZ NJ MAXB cell_of cpu feat_of sess ring0 w1 i WInit)
+     = snd (wstep SZ NJ MAXB cell_of cpu feat_of sess ring0 w2 i WInit).
+Proof. exact (cpuid_cache_idempotent_thm SZ NJ MAXB). Qed.
+Print Assumptions cpuid_cache_idempotent.
+
+(* ... and under real concurrency, word by word: every word a thread loads after having stored
+   it is the CPU's answer, whatever the other threads store meanwhile (all of them store the same
+   constant) — the races on the cache are benign by value *)
+Theorem cpuid_race_benign : forall cpuw evs mem0,
+  reads_follow_own_writes [] evs = true ->
+  Forall (fun r : nat * nat * Z => snd r = cpuw (snd (fst r))) (crun cpuw mem0 evs).
+Proof. exact cpuid_race_benign_thm. Qed.
+Print Assumptions cpuid_race_benign.
+
+(* the counter counts imb_set_session calls of all managers and is read by nothing else *)
+Theorem session_counter_only_affects_session_id : forall cell_of cpu feat_of sess ring0 l w,
+  g_counter (glob (fst (wrun SZ NJ MAXB cell_of cpu feat_of sess ring0 w l))) = ctr_after (g_counter (glob w)) l.
+Proof. exact (session_counter_thm SZ NJ MAXB). Qed.
+Print Assumptions session_counter_only_affects_session_id.
